@@ -663,6 +663,12 @@ fn main() {
             b"*R;A:B;E;:B?;A:D?\n",
             b"A:S 'a long string, longer than small buffers';:E\n",
             b"A:A:A;A;:A:B;E;:B 1;:A:Y\n",
+            // newlines inside the string / block of the over-long message are not its terminator:
+            // what follows them is still part of the message that can only be discarded
+            b"A:S 'a long string\nE\nwith lines\n:A:B\nthat look like messages';:E\n",
+            b"A:S \"0123456789abcdef\n*R\n\"\n",
+            b"A:B;K #2270123456789abcdef\n:E\nA:B\nxyz;:E\n",
+            b"A:N 5,'\n\n\n\n\n\n\n\nE\n'\n",
         ];
         for m in over {
             let mut stream = m.to_vec();
@@ -721,7 +727,7 @@ fn main() {
             "lex_run_other_writers": {"max_tokens": lex2_len, "writers": writers2.iter().map(|w| w.json()).collect::<Vec<_>>(), "executions": lex2_execs},
             "lex_run_second_alphabet": {"alphabet": lex::sigma_alt_json(), "max_tokens": lex3_len, "writers": lw3.iter().map(|w| w.json()).collect::<Vec<_>>(), "strings": lex3_cases, "executions": lex3_execs},
             "lexeme_strings_on_lexi": {"alphabet": lex::sigma_lexeme_json(), "max_tokens": lexeme_len, "executions": lexeme_execs},
-            "oversized_messages": {"messages": 5, "N": "every instantiated N below the message length", "oracle": "nothing of the oversized message is executed, the following message is", "executions": over_execs},
+            "oversized_messages": {"messages": 9, "with_newlines_inside_a_string_or_block": 4, "N": "every instantiated N below the message length", "oracle": "nothing of the oversized message is executed, the following message is", "executions": over_execs},
             "long_numeric_fields": {"digits": "1..=40 in mantissa, fraction, exponent, radix literals, block length", "parameter_types": 15, "executions": long_execs},
             "many_parameters": {"headers": 9, "literal_kinds": 6, "parameters": "0..=16", "executions": many_execs},
             "capacity_sweep": {"messages": msgs.len(), "capacities": "recorder 0..=64, heapless {0,1,2,8,9,16,41,64}", "executions": cap_execs},
